@@ -1,5 +1,5 @@
 """C03 Condition variable: wiring and the PMutex layout the cast relies on."""
-from plint.ir import strip_casts, root_var, show
+from plint.ir import strip_casts, root_var, show, line
 from plint.wiring import check_wrapper, handle_is_param_field, callee_of
 
 COND_FAMILY = {"pthread_cond_wait", "pthread_cond_timedwait", "pthread_cond_signal", "pthread_cond_broadcast"}
@@ -61,6 +61,26 @@ def run(prog, rep):
                    "the mutex argument of pthread_cond_wait is %s, not derived from parameter %s" % (show(arg), params[1] if len(params) > 1 else "?"), c)
     rep.floor("C03.2", 1)
 
+    # C03.3: pthread_cond_wait releases and re-acquires the *native* mutex behind the PMutex API's back, so the native mutex must be
+    # the only lock state a PMutex has: no lock / trylock / unlock function may maintain another field of struct PMutex_
+    rep.rule("C03.3", "sole state: the lock, trylock and unlock functions of pmutex-posix.c keep no state in struct PMutex_ besides the native mutex "
+                      "(a condition wait would leave such state stale: it unlocks and relocks the native mutex directly)")
+    rec = mu.records.get("PMutex_")
+    native = rec.fields[0]["name"] if rec is not None and rec.fields else None
+    LOCKFAM = {"pthread_mutex_lock", "pthread_mutex_trylock", "pthread_mutex_unlock"}
+    n3 = 0
+    for f_ in mu.roots():
+        if not any(c.get("callee") in LOCKFAM for (b, i, c) in f_.calls()):
+            continue
+        n3 += 1
+        extra = [n for (b, i, n) in f_.nodes(elsewhere=True)
+                 if n["k"] == "member" and n.get("rec") == "PMutex_" and n["field"] != native]
+        rep.ob("C03.3", f_, "sole-state", not extra,
+               "%s touches no field of struct PMutex_ but the native mutex" % f_.name if not extra else
+               "line %d: %s keeps lock state in PMutex_.%s: p_cond_variable_wait unlocks and relocks the native mutex directly, so after a wait this field no longer "
+               "matches the mutex (a later p_mutex_trylock decides on stale state)" % (line(extra[0]), f_.name, extra[0]["field"]), extra[0] if extra else f_.loc[0])
+    rep.floor("C03.3", 3)
+
 
 # generic robustness battery: renaming every local/parameter in these files must not change any verdict
 RENAME_LOCALS = ['src/pcondvariable-posix.c']
@@ -75,6 +95,9 @@ SELFTEST = [
          old="struct PMutex_ {\n\tmutex_hdl\thdl;\n};", new="struct PMutex_ {\n\tpint\t\towner;\n\tmutex_hdl\thdl;\n};"),
     dict(id="mutex-field-after-neutral", file="src/pmutex-posix.c", expect=None,
          old="struct PMutex_ {\n\tmutex_hdl\thdl;\n};", new="struct PMutex_ {\n\tmutex_hdl\thdl;\n\tpint\t\towner;\n};"),
+    dict(id="mutex-locked-hint", file="src/pmutex-posix.c", expect="C03.3",
+         edits=[dict(file="src/pmutex-posix.c", old="struct PMutex_ {\n\tmutex_hdl\thdl;\n};", new="struct PMutex_ {\n\tmutex_hdl\thdl;\n\tvolatile pint\tlocked;\n};"),
+                dict(file="src/pmutex-posix.c", old="\tif (P_LIKELY (pthread_mutex_lock (&mutex->hdl) == 0))\n\t\treturn TRUE;", new="\tif (P_LIKELY (pthread_mutex_lock (&mutex->hdl) == 0)) {\n\t\tmutex->locked = 1;\n\t\treturn TRUE;\n\t}")]),
     dict(id="wait-wrong-mutex", file="src/pcondvariable-posix.c", expect="C03.2",
          old="(pthread_mutex_t *) mutex) != 0", new="(pthread_mutex_t *) cond) != 0"),
     dict(id="wait-not-form-neutral", file="src/pcondvariable-posix.c", expect=None,
